@@ -10,7 +10,7 @@ import (
 // valid RE2 expression on its own are representable, and matching is decided
 // by an independent backtracking matcher over runes (whole-string semantics).
 type Re struct {
-	Op   string `json:"op"`             // lit, any, class, cat, alt, star, plus, opt, group
+	Op   string `json:"op"`             // lit, any, class, cat, alt, star, plus, opt, group, bol (^), eol ($)
 	Lit  string `json:"lit,omitempty"`  // lit: literal text (printed quoted); class: the member runes
 	Neg  bool   `json:"neg,omitempty"`  // class: negated
 	Subs []*Re  `json:"subs,omitempty"` // cat, alt: n; star, plus, opt, group: 1
@@ -35,6 +35,10 @@ func (r *Re) String() string {
 		return quoteMeta(r.Lit)
 	case "any":
 		return "."
+	case "bol":
+		return "^"
+	case "eol":
+		return "$"
 	case "class":
 		var sb strings.Builder
 		sb.WriteByte('[')
@@ -119,6 +123,13 @@ func (r *Re) ends(s []rune, from []bool) []bool {
 				out[i+len(l)] = true
 			}
 		}
+		return out
+	case "bol":
+		// no multi-line flag: ^ holds at the beginning of the text only, $ at its end only
+		out[0] = from[0]
+		return out
+	case "eol":
+		out[len(s)] = from[len(s)]
 		return out
 	case "any":
 		// RE2 default: '.' does not match newline.
